@@ -16,7 +16,7 @@ import (
 // C10 — ROM bus readers/writers stay inside the addressed bank and obey io contracts.
 
 type c10Op struct {
-	Kind string `json:"kind"` // "write", "reopen" (new writer at the same address), "read"
+	Kind string `json:"kind"` // "write", "copy" (write via io.Copy from a plain reader), "grow" (Contents re-allocated), "reopen", "read"
 	N    int    `json:"n"`    // write length / read buffer size
 	Seed uint32 `json:"seed"` // write data = Mix(seed, i)
 }
@@ -90,7 +90,13 @@ func c10Run(c c10Case, short int) error {
 		switch op.Kind {
 		case "reopen":
 			w, o, dead = rom.BusWriter(addr), 0, false
-		case "write":
+		case "grow":
+			// the image is re-allocated (e.g. appended to) while readers/writers exist: they must follow ROM.Contents
+			bigger := make([]byte, len(rom.Contents), len(rom.Contents)+64)
+			copy(bigger, rom.Contents)
+			rom.Contents = bigger
+			rd, got, eof = nil, 0, false // a reader is a snapshot of the window it was created over; a new one (from position 0) is taken afterwards
+		case "write", "copy":
 			if dead {
 				continue // position after a failed write is not specified: the writer is not used again
 			}
@@ -98,7 +104,15 @@ func c10Run(c c10Case, short int) error {
 			for j := range data {
 				data[j] = rig.Mix(op.Seed, uint32(j))
 			}
-			n, e := w.Write(data)
+			var n int
+			var e error
+			if op.Kind == "copy" {
+				var n64 int64
+				n64, e = io.Copy(w, plainReader{bytes.NewReader(data)})
+				n = int(n64)
+			} else {
+				n, e = w.Write(data)
+			}
 			if o+op.N <= L {
 				if n != op.N || e != nil {
 					return fmt.Errorf("op %d: Write(%d bytes) at window position %d of %d returned (%d, %v), want (%d, nil)", i, op.N, o, L, n, e, op.N)
@@ -234,6 +248,11 @@ func min(a, b int) int {
 	return b
 }
 
+// plainReader hides every optional interface of the wrapped reader (no WriteTo), like a file or a decompressor.
+type plainReader struct{ r io.Reader }
+
+func (p plainReader) Read(b []byte) (int, error) { return p.r.Read(b) }
+
 func firstDiff(a, b []byte) int {
 	for i := 0; i < len(a) && i < len(b); i++ {
 		if a[i] != b[i] {
@@ -315,10 +334,16 @@ func c10Gen(t *rapid.T) c10Case {
 			if n < 0 {
 				n = 0
 			}
-			c.Ops = append(c.Ops, c10Op{Kind: "write", N: n, Seed: rapid.Uint32().Draw(t, "data")})
+			kind := "write"
+			if n > 0 && n <= 32768 && rapid.IntRange(0, 3).Draw(t, "via-copy") == 0 {
+				kind = "copy"
+			}
+			c.Ops = append(c.Ops, c10Op{Kind: kind, N: n, Seed: rapid.Uint32().Draw(t, "data")})
 			if o+n <= L {
 				o += n
 			}
+		case k == 6 && rapid.Bool().Draw(t, "grow"):
+			c.Ops = append(c.Ops, c10Op{Kind: "grow"})
 		case k == 6:
 			c.Ops = append(c.Ops, c10Op{Kind: "reopen"})
 			o = 0
@@ -359,7 +384,7 @@ func TestC10(t *testing.T) {
 					L = 0x10000 - int(c.Off)
 				}
 				for _, op := range c.Ops {
-					if op.Kind == "write" {
+					if op.Kind == "write" || op.Kind == "copy" {
 						nw++
 						if o+op.N > L {
 							over = true
